@@ -6,7 +6,7 @@ there (must equal the baseline: 121 passed, only test_lock_permissions failing),
 and on the unchanged tree (must pass); the copy is removed. (2) the patch is applied to /repo itself, the registered quick checks named in
 DETECT are run from /verif, and /repo is restored (`git checkout -- .`). Nothing is ever committed to /repo.
 
-usage: tools/confirm_seeded.py [ids...]      (default: everything in seeded/pending)
+usage: tools/confirm_seeded.py [--src <dir with <id>/patch.diff,demo.py,README.md>] [--also id:Cxx+Cyy,...] [ids...]      (default: everything in the source dir)
 """
 import json
 import os
@@ -19,6 +19,17 @@ from concurrent.futures import ThreadPoolExecutor
 VERIF = os.path.dirname(os.path.dirname(os.path.abspath(__file__)))
 REPO = '/repo'
 PENDING = os.path.join(VERIF, 'seeded', 'pending')
+if '--src' in sys.argv:
+    i = sys.argv.index('--src')
+    PENDING = os.path.abspath(sys.argv[i + 1])
+    del sys.argv[i:i + 2]
+EXTRA = {}      # id -> additional properties whose checks are run too
+if '--also' in sys.argv:
+    i = sys.argv.index('--also')
+    for part in sys.argv[i + 1].split(','):
+        k, v = part.split(':')
+        EXTRA.setdefault(k, []).extend(v.split('+'))
+    del sys.argv[i:i + 2]
 PY = '/venv/bin/python'
 
 DETECT = {
@@ -102,7 +113,7 @@ def stage2(mid, info):
     rc, o = sh('git -C %s apply %s' % (REPO, patch))
     checks = {}
     try:
-        for prop in DETECT[mid]:
+        for prop in DETECT.get(mid, [mid.split('-')[0]]) + EXTRA.get(mid, []):
             rc, o = sh('./check %s --tier quick' % prop, cwd=VERIF, timeout=3000)
             vio = [l for l in o.split('\n') if l.startswith('VIOLATION')]
             what = [l.strip() for l in o.split('\n') if l.strip().startswith('what:')]
